@@ -119,7 +119,13 @@ func FillerWeight(cs consensus.State) uint64 {
 }
 
 func NewWorld(r *vh.Run, rng *vh.RNG, name string, net *chainx.Net) *World {
-	w := &World{R: r, Rng: rng, Net: net, Tree: chainx.NewTree(net), Node: net.MustNode(),
+	node := net.MustNode()
+	if rng.Chance(1, 3) {
+		// the manager runs over a store with an atomicity probe (chainx.ProbeStore)
+		node = net.NewProbedNode()
+		node.Probe.Every = 2
+	}
+	w := &World{R: r, Rng: rng, Net: net, Tree: chainx.NewTree(net), Node: node,
 		txIDs: map[types.TransactionID]int{}, elemIDs: map[types.Hash256]int{}, info: map[int]*BlkInfo{},
 		decl: map[int]bool{}, Known: map[int]bool{0: true}, Applied: map[int]bool{0: true}, V1ByID: map[int]types.Transaction{}, V2ByID: map[int]types.V2Transaction{},
 		Stats: map[string]int{}, TxEra: map[[32]byte]int{}}
@@ -450,7 +456,18 @@ func (w *World) Guard(class, what string, f func()) (panicked bool) {
 			w.C.Oracle(class, "%s panics: %v", what, r)
 		}
 	}()
-	f()
+	// on a probed node every entry point that changes the manager (all pool entry points re-validate
+	// the pool first, the by-id lookups and the parent queries included) is announced as a writer:
+	// while it is inside a store call, nothing else may get an answer from the manager
+	if p := w.Node.Probe; p != nil && !strings.HasPrefix(what, "UpdateV2TransactionSet") {
+		p.Writer(what, f)
+		for _, found := range p.Found() {
+			w.C.Oracle("manager-readable-in-the-middle-of-a-change", "%s", found)
+		}
+		w.Stats["probes"] = int(p.Probes())
+	} else {
+		f()
+	}
 	return false
 }
 
@@ -584,6 +601,20 @@ func (w *World) PoolLine() (line string, v1 []types.Transaction, v2 []types.V2Tr
 // core's consensus package (fresh MidState; v2 proofs against TipState().Elements), must be valid
 // at every prefix; every carried v2 element must equal the shadow ledger's.
 func (w *World) ValidatePool(v1 []types.Transaction, v2 []types.V2Transaction) {
+	// one entry per transaction id
+	seen := map[types.TransactionID]bool{}
+	for _, t := range v1 {
+		if seen[t.ID()] {
+			w.C.Oracle("pool-duplicate-transaction", "the reported pool lists v1 transaction %d twice", w.Tx(t.ID()))
+		}
+		seen[t.ID()] = true
+	}
+	for _, t := range v2 {
+		if seen[t.ID()] {
+			w.C.Oracle("pool-duplicate-transaction", "the reported pool lists v2 transaction %d twice", w.Tx(t.ID()))
+		}
+		seen[t.ID()] = true
+	}
 	cs := w.Node.CM.TipState()
 	ms := consensus.NewMidState(cs)
 	for i, txn := range v1 {
